@@ -89,7 +89,24 @@ func genReqCtx(t *rapid.T) (*reqCtx, bool) {
 	if max := l.MaxTagsPerMetric; max > 0 && len(rc.Enriched) > max {
 		rc.Enriched = rc.Enriched[:max] // otherwise no metric at all could pass
 	}
+	// (line-protocol requests only) the unit of the timestamps: one of the units that can carry any
+	// millisecond timestamp, named by the precision parameter in some letter case
+	rc.Unit = rapid.SampledFrom([]string{"ms", "ms", "us", "ns"}).Draw(t, "influxUnit")
+	rc.Prec = genLetterCase(t, rc.Unit, "influxPrecisionCase")
 	return rc, custom
+}
+
+// genLetterCase: the write API compares the precision parameter case-insensitively.
+func genLetterCase(t *rapid.T, unit, label string) string {
+	switch rapid.IntRange(0, 3).Draw(t, label) {
+	case 0:
+		return strings.ToUpper(unit)
+	case 1:
+		return strings.ToUpper(unit[:1]) + unit[1:]
+	case 2:
+		return unit[:len(unit)-1] + strings.ToUpper(unit[len(unit)-1:])
+	}
+	return unit
 }
 
 // ---- tags ---------------------------------------------------------------------------------------
